@@ -12,6 +12,17 @@ For one sample field object of every field kind of the model vocabulary it recor
   * `nsb`          isinstance(f, (Number, String, Boolean))     (fast serialization: served by `_get_value`)
   * `numOrStr`     isinstance(f, Number) or f.__class__ is String   (Array.serialize returns the list itself)
 
+  * `verdict` / `verdictArr` / `verdictSet` / `verdictOpt` / `verdictOptRev`   what the REAL classifier
+                   `_structure_simplicity_level` returns for a one-field class whose field is the sample, an
+                   Array / Set of it, an Optional of it in both option orders ("no" / "flat" / "nested" /
+                   "raises" / "undef" = the class cannot be declared)
+  * `created`      does `create_serializer` succeed for the one-field FastSerializable class ("yes" / "no" / "undef")
+
+and, per function of the shortcut paths, the sorted set of class names its `isinstance` tests mention
+(`isinstanceClasses`, from the AST): a branch on a new class, or the removal of the last branch on a class,
+changes the set and breaks `classifier_branches_pinned`; a changed branch on an existing class changes a
+verdict row and breaks `classifier_rows_ok`.
+
 Props/C10Tie.lean proves by `decide` that every row agrees with the predicates the model is written with
 (`isValidCls`, `isSetScalar`, `isEnumDecl`, `isNSB`, `isNumOrStr` and the constructors `effOf` / `tVal`
 dispatch on), so adding a class to a whitelist, or changing the class hierarchy of the field types,
@@ -81,9 +92,70 @@ def set_branch_tuple():   # (kept for older trees; since d9ee4f9 the Set branch 
     return tuple(getattr(SER, n) for n in names), names
 
 
+def _fresh(tag):
+    return dict(samples())[tag]
+
+
+def _verdict(make_field):
+    """_structure_simplicity_level of a fresh one-field class"""
+    import typedpy as T
+    from typedpy.serialization import serialization as SER
+    try:
+        cls = type("S", (T.Structure,), {"f": make_field(), "_required": []})
+    except Exception:
+        return "undef"
+    try:
+        v = SER._structure_simplicity_level(cls)
+    except ValueError:
+        return "raises"
+    except Exception as e:
+        return "exc:" + type(e).__name__
+    if v is False:
+        return "no"
+    return {SER._ClsSimplicity.not_nested: "flat", SER._ClsSimplicity.nested: "nested"}.get(v, repr(v))
+
+
+def _created(make_field):
+    import typedpy as T
+    try:
+        cls = type("S", (T.Structure, T.FastSerializable), {"f": make_field(), "_required": []})
+    except Exception:
+        return "undef"
+    try:
+        T.create_serializer(cls)
+        return "yes"
+    except Exception:
+        return "no"
+
+
+FUNCS = [("serialization", "_structure_simplicity_level"), ("serialization", "_is_mapper_simple"),
+         ("serialization", "_get_enum_mapping"), ("serialization", "_remap_input"),
+         ("fast_serialization", "_verify_is_fast_serializable"), ("fast_serialization", "_get_serialize"),
+         ("fast_serialization", "create_serializer")]
+
+
+def isinstance_classes():
+    """per function: the sorted class names its isinstance / issubclass tests mention"""
+    import importlib
+    out = []
+    for mod, fn in FUNCS:
+        m = importlib.import_module("typedpy.serialization." + mod)
+        f = getattr(m, fn)
+        f = getattr(f, "__wrapped__", f)
+        tree = ast.parse(inspect.getsource(f))
+        names = set()
+        for node in ast.walk(tree):
+            if isinstance(node, ast.Call) and getattr(node.func, "id", "") in ("isinstance", "issubclass") and len(node.args) == 2:
+                a1 = node.args[1]
+                for e in (a1.elts if isinstance(a1, ast.Tuple) else [a1]):
+                    names.add(ast.unparse(e))
+        out.append((fn, sorted(names)))
+    return out
+
+
 def rows():
     import typedpy as T
-    from typedpy.structures import ClassReference
+    from typedpy.structures import ClassReference, NoneField
     from typedpy.serialization import serialization as SER
     from typedpy.fields import SerializableField
     valid = SER._valid_classes_for_trusted_deserialization
@@ -101,12 +173,19 @@ def rows():
             "anyOf": isinstance(f, T.AnyOf),
             "nsb": isinstance(f, (T.Number, T.String, T.Boolean)),
             "numOrStr": isinstance(f, T.Number) or f.__class__ is T.String,
+            "verdict": _verdict(lambda: _fresh(tag)),
+            "verdictArr": _verdict(lambda: T.Array(items=_fresh(tag))),
+            "verdictSet": _verdict(lambda: T.Set(items=_fresh(tag))),
+            "verdictOpt": _verdict(lambda: T.AnyOf([_fresh(tag), NoneField()])),
+            "verdictOptRev": _verdict(lambda: T.AnyOf([NoneField(), _fresh(tag)])),
+            "created": _created(lambda: _fresh(tag)),
         })
     names = [c.__name__ for c in valid]
     return out, names, (sb[1] if sb else [])
 
 
 COLS = ["valid", "serializable", "array", "set", "classRef", "anyOf", "nsb", "numOrStr"]
+SCOLS = ["verdict", "verdictArr", "verdictSet", "verdictOpt", "verdictOptRev", "created"]
 
 
 def render(ns):
@@ -122,18 +201,25 @@ def render(ns):
         "",
         "structure Row where",
         "  kind : String",
-    ] + [f"  {c} : Bool" for c in COLS] + [
+    ] + [f"  {c} : Bool" for c in COLS] + [f"  {c} : String" for c in SCOLS] + [
         "deriving DecidableEq, Repr",
         "",
         "def rows : List Row := [",
     ]
     body = []
     for r in rs:
-        body.append("  { kind := " + lean_str(r["kind"]) + ", " + ", ".join(f"{c} := {lean_bool(r[c])}" for c in COLS) + " }")
+        body.append("  { kind := " + lean_str(r["kind"]) + ", " + ", ".join(f"{c} := {lean_bool(r[c])}" for c in COLS) + ", "
+                    + ", ".join(f"{c} := {lean_str(r[c])}" for c in SCOLS) + " }")
     lines.append(",\n".join(body))
     lines += ["]", "",
               "def whitelist : List String := [" + ", ".join(lean_str(n) for n in names) + "]",
               "def setWhitelist : List String := [" + ", ".join(lean_str(n) for n in set_names) + "]",
+              "",
+              "/-- per function of the shortcut paths: the class names its isinstance tests mention -/",
+              "def isinstanceClasses : List (String × List String) := [",
+              ",\n".join("  (" + lean_str(fn) + ", [" + ", ".join(lean_str(n) for n in ns_) + "])"
+                          for fn, ns_ in isinstance_classes()),
+              "]",
               "", f"end Typedpy.{ns}.Trusted", ""]
     return "\n".join(lines)
 
